@@ -1,4 +1,7 @@
 import YaqsModel.Lemmas.Sweep
+import YaqsModel.Lemmas.Conserve
+import YaqsModel.Lemmas.ConserveStep
+import YaqsModel.Props.C19
 
 /-!
 # C05 — noise-free analog evolution: unitary, energy-conserving, converges to exp(-iHt)
@@ -21,6 +24,10 @@ Full statement of the property (`c05_full`, NOT proved here — the analytic par
   the exactness of the projector splitting), and BUG updates every site once with the full step (`bug_order`;
   Ceruti–Lubich–Walach 2021 for the first-order bound) — but the limit argument itself is not formalised.
 -/
+-- xe05: the extension below imports Mathlib's order/analysis hierarchy, which tags `Order.add_one_le_iff` (`a + 1 ≤ b ↔ a < b`)
+-- as a simp lemma; the case analyses of the schedule theorems in this file are written against the core simp set
+attribute [-simp] Order.add_one_le_iff
+
 namespace Yaqs.Sweep
 
 /-- **C05.1** (`ldtdvp_telescopes`) For every chain length `L ≥ 2`, every half step `h` and every decision
@@ -400,5 +407,622 @@ example : NormTrace 3 (1 / 100) [Op.pair 0 (1/2), Op.split 0 true, Op.split 1 tr
   NormTrace.step _ _ 1 1 _ (by norm_num [lossCount]) (by norm_num)
     (NormTrace.step _ _ 1 (99 / 100) _ (by norm_num [lossCount]) (by norm_num)
       (NormTrace.step _ _ (99 / 100) (98 / 100) _ (by norm_num [lossCount]) (by norm_num) (NormTrace.nil _)))
+
+end Yaqs.Sweep
+
+
+/-!
+# C05 extension (xe05) — exact norm and energy conservation of the TDVP primitives and of the one-site sweep
+
+The theorems above prove the *schedule* of the sweeps and take "every primitive preserves the norm" as a hypothesis of
+`norm_budget`; clause (b) of the property (energy) was only measured.  The theorems below turn that hypothesis into
+theorems, in three layers:
+
+1. `herm_flow_*`  — Mathlib's genuine matrix exponential: for a Hermitian `K` and real `t` (either sign) the map
+   `U = exp(-(t·i)•K)` that `update_site` / `update_bond` apply (`expm_krylov(H_eff, v, t)`) is unitary and commutes with
+   `K`: the local norm `v†v` and the local energy `v†Kv` are conserved by the local step exactly.
+2. `energy_is_local_*`, `norm_is_local_*` — index model of `Model/Heff.lean` (the contraction order of
+   `update_left_environment`, `update_right_environment`, `project_site`, `project_bond`): the number `⟨ψ|H|ψ⟩` of the whole
+   chain equals the quadratic form of the local effective Hamiltonian of any one site, resp. of the bond matrix after a QR
+   split; `⟨ψ|ψ⟩` (the same network for `MPO.identity`) equals `Σ|A|²` resp. `Σ|C|²` in mixed canonical form.
+   `site_update_conserves_*`, `bond_update_conserves_*` combine 1 and 2 with C19's `heff_hermitian_chain`.
+3. `one_site_sweep_conserves`, `two_site_sweep_drift`, `sweep_drift_abstract`, `ldtdvp_steps`, `ldtdvp_drift`,
+   `norm_budget_discharged`, `c05_norm_discharged` — induction over the step list of
+   `Model/Conserve.lean` (the op list of `Model/Sweep.lean` with the QR / contraction / merge steps written out; its
+   erasure is the tied list) for an abstract system whose steps are assumed to act as in 1–2: exact conservation for the
+   one-site integrator, drift ≤ (#splits)·thr for the two-site and the default dynamic integrator, and the norm-trace
+   hypothesis of `norm_budget` / `c05_partial` becomes a theorem.
+
+What remains a hypothesis (said again at each theorem): that the Krylov exponential is exact (`expm_krylov` returns
+`exp(-i·t·H_eff) v` — C19: exact on an invariant subspace, otherwise within `tol = 1e-12`, cited bound), that floating-point
+rounding is absent, and — for the abstract sweep theorems — that the concrete MPS operations realise the abstract steps
+(each such assumption names the theorem that discharges it for the concrete objects).
+-/
+
+namespace Yaqs.Conserve
+
+open Matrix
+
+/-- **C05.5 `herm_flow_unitary`** (clause "keeps the state normalised", local step).  For a Hermitian matrix `K` (the dense
+    effective Hamiltonian — Hermitian by C19's `heff_hermitian_chain` / `heff_bond_hermitian_chain`) and every real `t`
+    — `+dt/2` of the forward site step, `-dt/2` of the backward bond step — `U = exp(-(t·i)•K)` satisfies `Uᴴ U = 1 = U Uᴴ`
+    and therefore `‖U v‖² = ‖v‖²` for every vector.  Hypothesis left: `expm_krylov` returns `U v` (C19). -/
+theorem herm_flow_unitary {n : Type*} [Fintype n] [DecidableEq n] (K : Matrix n n ℂ) (hK : Kᴴ = K) (t : ℝ) :
+    (NormedSpace.exp (-((t : ℂ) * Complex.I) • K))ᴴ * NormedSpace.exp (-((t : ℂ) * Complex.I) • K) = 1 ∧
+    NormedSpace.exp (-((t : ℂ) * Complex.I) • K) * (NormedSpace.exp (-((t : ℂ) * Complex.I) • K))ᴴ = 1 ∧
+    ∀ v : n → ℂ, star (NormedSpace.exp (-((t : ℂ) * Complex.I) • K) *ᵥ v) ⬝ᵥ
+      (NormedSpace.exp (-((t : ℂ) * Complex.I) • K) *ᵥ v) = star v ⬝ᵥ v := by
+  refine ⟨flow_unitary K hK t, flow_unitary' K hK t, fun v => ?_⟩
+  have h := normSq_mulVec (flow K t) v
+  rw [flow_unitary K hK t, Matrix.one_mulVec] at h
+  exact h
+
+/-- **C05.6 `herm_flow_energy`** (clause "energy expectation constant", local step).  Same `U`: `K` commutes with its own
+    exponential, so `Uᴴ K U = K` and `⟨U v, K U v⟩ = ⟨v, K v⟩` for every vector — the local energy is conserved by the
+    local step exactly, for either sign of `t`. -/
+theorem herm_flow_energy {n : Type*} [Fintype n] [DecidableEq n] (K : Matrix n n ℂ) (hK : Kᴴ = K) (t : ℝ) :
+    (NormedSpace.exp (-((t : ℂ) * Complex.I) • K))ᴴ * K * NormedSpace.exp (-((t : ℂ) * Complex.I) • K) = K ∧
+    ∀ v : n → ℂ, star (NormedSpace.exp (-((t : ℂ) * Complex.I) • K) *ᵥ v) ⬝ᵥ
+      (K *ᵥ (NormedSpace.exp (-((t : ℂ) * Complex.I) • K) *ᵥ v)) = star v ⬝ᵥ (K *ᵥ v) := by
+  refine ⟨flow_conj_gen K hK t, fun v => ?_⟩
+  have h := quad_mulVec (flow K t) K v
+  rw [flow_conj_gen K hK t] at h
+  exact h
+
+/-- **C05.7 `herm_flow_inverse`** the backward step undoes the forward step with the same generator (any `K`, Hermitian or
+    not): `exp(-(-t·i)•K) · exp(-(t·i)•K) = 1` and `exp(-((s+t)·i)•K) = exp(-(s·i)•K) · exp(-(t·i)•K)`.  This is the fact
+    behind `cancel` in `ldtdvp_symmetric` (a backward site step immediately followed by the forward step on the same site
+    with the same environments is the identity map). -/
+theorem herm_flow_inverse {n : Type*} [Fintype n] [DecidableEq n] (K : Matrix n n ℂ) (s t : ℝ) :
+    NormedSpace.exp (-(((s + t : ℝ) : ℂ) * Complex.I) • K) =
+      NormedSpace.exp (-((s : ℂ) * Complex.I) • K) * NormedSpace.exp (-((t : ℂ) * Complex.I) • K) ∧
+    NormedSpace.exp (-(((-t : ℝ) : ℂ) * Complex.I) • K) * NormedSpace.exp (-((t : ℂ) * Complex.I) • K) = 1 := by
+  refine ⟨flow_add K s t, ?_⟩
+  have h := flow_add K (-t) t
+  rw [neg_add_cancel, flow_zero] at h
+  exact h.symm
+
+/-- non-vacuity: Pauli `Y` is Hermitian, genuinely complex and not diagonal -/
+example : (!![0, -Complex.I; Complex.I, 0] : Matrix (Fin 2) (Fin 2) ℂ)ᴴ = !![0, -Complex.I; Complex.I, 0] := by
+  ext i j; fin_cases i <;> fin_cases j <;> simp
+
+end Yaqs.Conserve
+
+namespace Yaqs.Heff
+
+open Finset Matrix Yaqs.Conserve
+
+/-- **C05.8 `energy_is_local_site`** (index model of `Model/Heff.lean`).  For a chain `ls ++ s :: rs` of any length with
+    matching bond dimensions, `⟨ψ|H|ψ⟩` — the whole chain absorbed site by site by `update_right_environment` into the
+    identity boundary block and paired with the identity block on the left (`totalE`; the same number for every cut,
+    C19's `env_update_assoc`) — equals
+    (i) the network cut to the left of `s` and (ii) to the right of `s` (blocks built by `update_left_environment` over `ls`
+        resp. `ls ++ [s]`, by `initialize_right_environments` over `s :: rs` resp. `rs`),
+    (iii) `Σ conj(A_s)·project_site(L, R, W_s, A_s)` with `L`, `R` the environments of the rest of the chain, and
+    (iv) the quadratic form of `build_dense_heff_site(L, R, W_s)` on `A_s.reshape(-1)`.
+    `cj` is any function (complex conjugation in the code); nothing is assumed about the MPO. -/
+theorem energy_is_local_site {K : Type*} [CommSemiring K] (cj : K → K) (ls : List (Site K)) (s : Site K)
+    (rs : List (Site K)) (hd : ChainDims (ls ++ s :: rs)) :
+    totalE cj (ls ++ s :: rs) =
+      pair3 s.d.a s.d.l s.d.aa (leftEnvChain cj idEnv ls) (rightEnvChain cj idEnv (s :: rs)) ∧
+    totalE cj (ls ++ s :: rs) =
+      pair3 s.d.b s.d.r s.d.bb (leftEnvChain cj idEnv (ls ++ [s])) (rightEnvChain cj idEnv rs) ∧
+    totalE cj (ls ++ s :: rs) =
+      braket3 cj s.d.o s.d.aa s.d.bb s.ket
+        (projectSite s.d (leftEnvChain cj idEnv ls) (rightEnvChain cj idEnv rs) s.W s.ket) ∧
+    totalE cj (ls ++ s :: rs) =
+      ∑ row ∈ range (s.d.o * s.d.aa * s.d.bb), cj (flattenT3 s.d.aa s.d.bb s.ket row) *
+        matVec (s.d.p * s.d.a * s.d.b)
+          (denseHeffSite s.d (leftEnvChain cj idEnv ls) (rightEnvChain cj idEnv rs) s.W)
+          (flattenT3 s.d.a s.d.b s.ket) row := by
+  refine ⟨cutLeft_eq_cut_left cj ls s rs hd _ _, cutLeft_eq_cut_right cj ls s rs hd _ _,
+    cutLeft_eq_local_site cj ls s rs hd _ _, ?_⟩
+  rw [← local_site_eq_dense]
+  exact cutLeft_eq_local_site cj ls s rs hd _ _
+
+/-- **C05.9 `energy_is_local_bond`** the zero-site problem.  Left-to-right: the updated site tensor is factored as `Q·C`
+    (`np.linalg.qr`), the left block absorbs `Q` alone (`left_blocks[i+1] = update_left_environment(Q, Q, W_i, left_blocks[i])`);
+    then `⟨ψ|H|ψ⟩ = Σ conj(C)·project_bond(left_blocks[i+1], right_blocks[i], C)` = the quadratic form of
+    `build_dense_heff_bond` on `C.reshape(-1)`.  Right-to-left: the mirror image with `C·Q`. -/
+theorem energy_is_local_bond {K : Type*} [CommSemiring K] [StarRing K] (ls : List (Site K)) (s : Site K)
+    (rs : List (Site K)) (hd : ChainDims (ls ++ s :: rs)) (k : ℕ) (Q : ℕ → ℕ → ℕ → K) (C : ℕ → ℕ → K) :
+    (s.ket = mulC k Q C →
+      totalE star (ls ++ s :: rs) =
+        braket2 star k s.d.bb C (projectBond ⟨k, s.d.b, s.d.r, k, s.d.bb⟩
+          (leftEnvChain star idEnv (ls ++ [⟨s.d, Q, s.W⟩])) (rightEnvChain star idEnv rs) C) ∧
+      totalE star (ls ++ s :: rs) =
+        ∑ row ∈ range (k * s.d.bb), star (flattenT2 s.d.bb C row) *
+          matVec (k * s.d.b) (denseHeffBond ⟨k, s.d.b, s.d.r, k, s.d.bb⟩
+            (leftEnvChain star idEnv (ls ++ [⟨s.d, Q, s.W⟩])) (rightEnvChain star idEnv rs))
+            (flattenT2 s.d.b C) row) ∧
+    (s.ket = Cmul k C Q →
+      totalE star (ls ++ s :: rs) =
+        braket2 star s.d.aa k C (projectBond ⟨s.d.a, k, s.d.l, s.d.aa, k⟩
+          (leftEnvChain star idEnv ls) (rightEnvChain star idEnv (⟨s.d, Q, s.W⟩ :: rs)) C)) := by
+  refine ⟨fun hs => ⟨cutLeft_eq_local_bond_lr ls s rs hd _ _ k Q C hs, ?_⟩,
+    fun hs => cutLeft_eq_local_bond_rl ls s rs hd _ _ k Q C hs⟩
+  have h := local_bond_eq_dense star ⟨k, s.d.b, s.d.r, k, s.d.bb⟩
+    (leftEnvChain star idEnv (ls ++ [⟨s.d, Q, s.W⟩])) (rightEnvChain star idEnv rs) C C
+  rw [← h]
+  exact cutLeft_eq_local_bond_lr ls s rs hd _ _ k Q C hs
+
+/-- **C05.10 `norm_is_local`** `⟨ψ|ψ⟩` is the same network for `MPO.identity` (`W[o,p,0,0] = δ_{op}`, MPO bonds 1).  If the
+    sites left of `s` have orthonormal columns and the sites right of `s` orthonormal rows (mixed canonical form — what
+    `MPS.normalize("B")` and the QR steps of the sweep establish, C10.11), both environments are identities and
+    `⟨ψ|ψ⟩ = Σ |A_s|²`; with `s = Q·C` and `Q` (shape `(p, a, k)`, any `k` — `k = min(p·a, b)` for `np.linalg.qr`) left-isometric,
+    `⟨ψ|ψ⟩ = Σ |C|²`. -/
+theorem norm_is_local {K : Type*} [CommSemiring K] [StarRing K] (n0 n1 : ℕ) (ls : List (Site K)) (s : Site K)
+    (rs : List (Site K)) (hd : ChainDims (ls ++ s :: rs)) (hs : IdSite s)
+    (hr : RightCanon star n1 rs) (hrb : RightCanon.inDim n1 rs = s.d.b) :
+    (LeftCanon star n0 ls → outDim n0 ls = s.d.a →
+      totalE star (ls ++ s :: rs) = braket3 star s.d.o s.d.aa s.d.bb s.ket s.ket) ∧
+    (∀ (k : ℕ) (Q : ℕ → ℕ → ℕ → K) (C : ℕ → ℕ → K), s.ket = mulC k Q C →
+      LeftCanon star n0 (ls ++ [⟨{ s.d with b := k, bb := k }, Q, s.W⟩]) →
+      totalE star (ls ++ s :: rs) = braket2 star k s.d.bb C C) := by
+  constructor
+  · intro hl hla
+    exact norm_local_site star n0 n1 ls s rs hd hs hl hla hr hrb _ _ (isIdEnv_idEnv n0) (isIdEnv_idEnv n1)
+  · intro k Q C hk hl
+    unfold totalE
+    rw [cutLeft_eq_local_bond_lr ls s rs hd _ _ k Q C hk]
+    obtain ⟨_, _, hb, _, hr1, _⟩ := hs
+    have hL := leftEnvChain_isId star n0 _ hl idEnv (isIdEnv_idEnv n0)
+    have hR := rightEnvChain_isId star n1 rs hr idEnv (isIdEnv_idEnv n1)
+    rw [outDim_append_singleton] at hL
+    rw [hrb] at hR
+    -- the left block does not depend on the right bond dimension recorded with the site
+    have hLL : leftEnvChain star idEnv (ls ++ [⟨{ s.d with b := k, bb := k }, Q, s.W⟩]) =
+        leftEnvChain star idEnv (ls ++ [⟨s.d, Q, s.W⟩]) := by
+      rw [leftEnvChain_append, leftEnvChain_append]
+      rfl
+    rw [hLL] at hL
+    unfold braket2
+    refine Finset.sum_congr rfl fun p hp => Finset.sum_congr rfl fun w hw => ?_
+    rw [projectBond_id ⟨k, s.d.b, s.d.r, k, s.d.bb⟩ hr1 rfl hb _ _ hL hR C p w (Finset.mem_range.mp hp)
+      (Finset.mem_range.mp hw)]
+
+/-- **C05.11 `site_update_conserves_energy`** (the site primitive, concrete objects).  Chain over ℂ whose MPO tensors are
+    Hermitian up to bond gauges (C19's `ChainHerm`: what `MPO.ising`, `heisenberg`, `from_pauli_sum` produce for real
+    coefficients), environments as the sweep builds them.  If the new tensor of site `s` is the exact flow
+    `exp(-(t·i)•H_eff)` of the dense effective Hamiltonian applied to the old one — what `update_site(L, R, W_s, A_s, t)`
+    returns when the Krylov exponential is exact — then `⟨ψ|H|ψ⟩` of the whole chain is unchanged.  Either sign of `t`. -/
+theorem site_update_conserves_energy (g : BondGauge ℂ) (hg : ∀ k, GaugeInv (g.bd k) (g.G k) (g.Gi k))
+    (ls rs : List (Site ℂ)) (s : Site ℂ) (hd : ChainDims (ls ++ s :: rs))
+    (hchain : ChainHerm g 0 (ls ++ s :: rs))
+    (hb0 : ∀ l, l < g.bd 0 → ∑ l' ∈ range (g.bd 0), g.Gi 0 l' l = 1)
+    (hbn : ∀ r, r < g.bd (ls.length + 1 + rs.length) →
+      ∑ r' ∈ range (g.bd (ls.length + 1 + rs.length)), g.G (ls.length + 1 + rs.length) r r' = 1)
+    (t : ℝ) (A' : ℕ → ℕ → ℕ → ℂ)
+    (hstep : finVec (s.d.p * s.d.a * s.d.b) (flattenT3 s.d.a s.d.b A') =
+      NormedSpace.exp (-((t : ℂ) * Complex.I) • finMat (s.d.p * s.d.a * s.d.b)
+        (denseHeffSite s.d (leftEnvChain star idEnv ls) (rightEnvChain star idEnv rs) s.W)) *ᵥ
+        finVec (s.d.p * s.d.a * s.d.b) (flattenT3 s.d.a s.d.b s.ket)) :
+    totalE star (ls ++ ⟨s.d, A', s.W⟩ :: rs) = totalE star (ls ++ s :: rs) := by
+  have hs : HermSiteG g (0 + ls.length) s := ((chainHerm_append g ls (s :: rs) 0).mp hchain).2.1
+  obtain ⟨hop, ha, hb, _, _, _⟩ := hs
+  unfold totalE
+  rw [cutLeft_eq_local_site star ls ⟨s.d, A', s.W⟩ rs (chainDims_replace ls s _ rs rfl hd),
+    cutLeft_eq_local_site star ls s rs hd]
+  exact site_step_energy s.d hop ha.symm hb.symm _ _ s.W
+    (heff_hermitian_chain g hg ls rs s hchain hb0 hbn) t s.ket A' hstep
+
+/-- **C05.12 `site_update_conserves_norm`** in mixed canonical form with the centre at `s`, any unitary map of the
+    flattened centre tensor — in particular the flow of C05.5 — leaves `⟨ψ|ψ⟩` of the whole chain unchanged. -/
+theorem site_update_conserves_norm (n0 n1 : ℕ) (ls rs : List (Site ℂ)) (s : Site ℂ)
+    (hd : ChainDims (ls ++ s :: rs)) (hs : IdSite s)
+    (hl : LeftCanon star n0 ls) (hla : outDim n0 ls = s.d.a)
+    (hr : RightCanon star n1 rs) (hrb : RightCanon.inDim n1 rs = s.d.b)
+    (U : Matrix (Fin (s.d.p * s.d.a * s.d.b)) (Fin (s.d.p * s.d.a * s.d.b)) ℂ) (hU : Uᴴ * U = 1)
+    (A' : ℕ → ℕ → ℕ → ℂ)
+    (hstep : finVec (s.d.p * s.d.a * s.d.b) (flattenT3 s.d.a s.d.b A') =
+      U *ᵥ finVec (s.d.p * s.d.a * s.d.b) (flattenT3 s.d.a s.d.b s.ket)) :
+    totalE star (ls ++ ⟨s.d, A', s.W⟩ :: rs) = totalE star (ls ++ s :: rs) := by
+  have h1 := (norm_is_local n0 n1 ls s rs hd hs hr hrb).1 hl hla
+  have h2 := (norm_is_local n0 n1 ls ⟨s.d, A', s.W⟩ rs (chainDims_replace ls s _ rs rfl hd) hs hr hrb).1 hl hla
+  rw [h1, h2]
+  obtain ⟨hop, ha, hb, _, _, _⟩ := hs
+  exact site_step_norm s.d hop ha.symm hb.symm U hU s.ket A' hstep
+
+/-- **C05.13 `bond_update_conserves_energy`** (the bond primitive of the left-to-right sweep, concrete objects).  Site `s`
+    holds `Q·C` (`sQ` is the same site carrying `Q` alone, `s'` the same site carrying `Q·C'`); the new bond matrix `C'` is
+    the exact flow of `build_dense_heff_bond(left_blocks[i+1], right_blocks[i])` applied to `C` — what
+    `update_bond(…, C, t)` returns when the Krylov exponential is exact; `t = -dt/2` in the sweep, any real `t` here.  Then
+    `⟨ψ|H|ψ⟩` of the chain with `Q·C'` equals that with `Q·C`. -/
+theorem bond_update_conserves_energy (ls rs : List (Site ℂ)) (s sQ s' : Site ℂ) (hd : ChainDims (ls ++ s :: rs))
+    (k : ℕ) (Q : ℕ → ℕ → ℕ → ℂ) (C C' : ℕ → ℕ → ℂ) (hs : s.ket = mulC k Q C)
+    (hsQ : sQ = ⟨s.d, Q, s.W⟩) (hs' : s' = ⟨s.d, mulC k Q C', s.W⟩) (hsq : s.d.bb = s.d.b)
+    (g : BondGauge ℂ) (hg : ∀ j, GaugeInv (g.bd j) (g.G j) (g.Gi j))
+    (hchain : ChainHerm g 0 ((ls ++ [sQ]) ++ rs)) (hm : s.d.r = g.bd (ls ++ [sQ]).length)
+    (hb0 : ∀ l, l < g.bd 0 → ∑ l' ∈ range (g.bd 0), g.Gi 0 l' l = 1)
+    (hbn : ∀ r, r < g.bd ((ls ++ [sQ]).length + rs.length) →
+      ∑ r' ∈ range (g.bd ((ls ++ [sQ]).length + rs.length)), g.G ((ls ++ [sQ]).length + rs.length) r r' = 1)
+    (t : ℝ)
+    (hstep : finVec (k * s.d.b) (flattenT2 s.d.b C') =
+      NormedSpace.exp (-((t : ℂ) * Complex.I) • finMat (k * s.d.b)
+        (denseHeffBond ⟨k, s.d.b, s.d.r, k, s.d.bb⟩ (leftEnvChain star idEnv (ls ++ [sQ]))
+          (rightEnvChain star idEnv rs))) *ᵥ finVec (k * s.d.b) (flattenT2 s.d.b C)) :
+    totalE star (ls ++ s' :: rs) = totalE star (ls ++ s :: rs) := by
+  subst hsQ hs'
+  have hdd := chainDims_replace ls s ⟨s.d, mulC k Q C', s.W⟩ rs rfl hd
+  unfold totalE
+  rw [cutLeft_eq_local_bond_lr ls _ rs hdd _ _ k Q C' rfl, cutLeft_eq_local_bond_lr ls s rs hd _ _ k Q C hs]
+  have hH := heff_bond_hermitian_chain g hg (ls ++ [⟨s.d, Q, s.W⟩]) rs ⟨k, s.d.b, s.d.r, k, s.d.bb⟩ hsq.symm hm
+    hchain hb0 hbn
+  have key := bond_step_energy (⟨k, s.d.b, s.d.r, k, s.d.bb⟩ : BondDims) rfl hsq _ _ hH t C C'
+  dsimp only at key
+  exact key hstep
+
+/-- **C05.13b `bond_update_conserves_norm`** on the norm network (identity MPO, `Q` and everything left of it
+    left-isometric, everything right of it right-isometric) any unitary map of the bond matrix `C` — in particular the flow
+    of C05.5 for the Hermitian `build_dense_heff_bond` of the real Hamiltonian — keeps `⟨ψ|ψ⟩`. -/
+theorem bond_update_conserves_norm (ls rs : List (Site ℂ)) (s s' : Site ℂ) (hd : ChainDims (ls ++ s :: rs))
+    (k : ℕ) (Q : ℕ → ℕ → ℕ → ℂ) (C C' : ℕ → ℕ → ℂ) (hs : s.ket = mulC k Q C)
+    (hs' : s' = ⟨s.d, mulC k Q C', s.W⟩)
+    (n0 n1 : ℕ) (hid : IdSite s) (hr : RightCanon star n1 rs) (hrb : RightCanon.inDim n1 rs = s.d.b)
+    (hl : LeftCanon star n0 (ls ++ [⟨{ s.d with b := k, bb := k }, Q, s.W⟩]))
+    (U : Matrix (Fin (k * s.d.b)) (Fin (k * s.d.b)) ℂ) (hU : Uᴴ * U = 1)
+    (hstep : finVec (k * s.d.b) (flattenT2 s.d.b C') = U *ᵥ finVec (k * s.d.b) (flattenT2 s.d.b C)) :
+    totalE star (ls ++ s' :: rs) = totalE star (ls ++ s :: rs) := by
+  subst hs'
+  have hdd := chainDims_replace ls s ⟨s.d, mulC k Q C', s.W⟩ rs rfl hd
+  have h1 := (norm_is_local n0 n1 ls s rs hd hid hr hrb).2 k Q C hs hl
+  have h2 := (norm_is_local n0 n1 ls ⟨s.d, mulC k Q C', s.W⟩ rs hdd hid hr hrb).2 k Q C' rfl hl
+  rw [h1, h2]
+  have key := bond_step_norm (⟨k, s.d.b, s.d.r, k, s.d.bb⟩ : BondDims) rfl hid.2.2.1.symm
+  dsimp only at key
+  exact key U hU C C' hstep
+
+/-- **C05.13c `bond_update_conserves_energy_rl`** the bond primitive of the right-to-left sweep: site `s` holds `C·Q`
+    (QR of the transposed tensor), `right_blocks[i-1] = update_right_environment(Q, Q, W_i, right_blocks[i])`, and
+    `update_bond(left_blocks[i], right_blocks[i-1], C, t)` returns the exact flow of the dense bond Hamiltonian: `⟨ψ|H|ψ⟩` of
+    the chain with `C'·Q` equals that with `C·Q`. -/
+theorem bond_update_conserves_energy_rl (ls rs : List (Site ℂ)) (s sQ s' : Site ℂ) (hd : ChainDims (ls ++ s :: rs))
+    (k : ℕ) (Q : ℕ → ℕ → ℕ → ℂ) (C C' : ℕ → ℕ → ℂ) (hs : s.ket = Cmul k C Q)
+    (hsQ : sQ = ⟨s.d, Q, s.W⟩) (hs' : s' = ⟨s.d, Cmul k C' Q, s.W⟩) (hsq : s.d.aa = s.d.a)
+    (g : BondGauge ℂ) (hg : ∀ j, GaugeInv (g.bd j) (g.G j) (g.Gi j))
+    (hchain : ChainHerm g 0 (ls ++ sQ :: rs)) (hm : s.d.l = g.bd ls.length)
+    (hb0 : ∀ l, l < g.bd 0 → ∑ l' ∈ range (g.bd 0), g.Gi 0 l' l = 1)
+    (hbn : ∀ r, r < g.bd (ls.length + (sQ :: rs).length) →
+      ∑ r' ∈ range (g.bd (ls.length + (sQ :: rs).length)), g.G (ls.length + (sQ :: rs).length) r r' = 1)
+    (t : ℝ)
+    (hstep : finVec (s.d.a * k) (flattenT2 k C') =
+      NormedSpace.exp (-((t : ℂ) * Complex.I) • finMat (s.d.a * k)
+        (denseHeffBond ⟨s.d.a, k, s.d.l, s.d.aa, k⟩ (leftEnvChain star idEnv ls)
+          (rightEnvChain star idEnv (sQ :: rs)))) *ᵥ finVec (s.d.a * k) (flattenT2 k C)) :
+    totalE star (ls ++ s' :: rs) = totalE star (ls ++ s :: rs) := by
+  subst hsQ hs'
+  have hdd := chainDims_replace ls s ⟨s.d, Cmul k C' Q, s.W⟩ rs rfl hd
+  unfold totalE
+  rw [cutLeft_eq_local_bond_rl ls _ rs hdd _ _ k Q C' rfl, cutLeft_eq_local_bond_rl ls s rs hd _ _ k Q C hs]
+  have hH := heff_bond_hermitian_chain g hg ls (⟨s.d, Q, s.W⟩ :: rs) ⟨s.d.a, k, s.d.l, s.d.aa, k⟩ rfl hm
+    hchain hb0 hbn
+  have key := bond_step_energy (⟨s.d.a, k, s.d.l, s.d.aa, k⟩ : BondDims) hsq rfl _ _ hH t C C'
+  dsimp only at key
+  exact key hstep
+
+/-- non-vacuity (`energy_is_local_site`, `energy_is_local_bond`): a two-site chain over ℚ(i) with bonds 1–2–1 and a
+    non-Hermitian-looking complex MPO; the whole-chain value is non-zero and equals the local form at site 0 and site 1 -/
+example :
+    let s1 : Site CRat := ⟨⟨2, 2, 1, 1, 2, 2, 1, 2⟩, fun p a b => ⟨(p + b + 1 : ℕ), (a + b : ℕ)⟩,
+      fun o p _ r => ⟨(o + p + r : ℕ), (o : ℤ) - p⟩⟩
+    let s2 : Site CRat := ⟨⟨2, 2, 2, 2, 1, 1, 2, 1⟩, fun p a b => ⟨(p + 2 * a : ℕ), (1 + b : ℕ)⟩,
+      fun o p l _ => ⟨(o + p + l : ℕ), (p : ℤ) - o⟩⟩
+    ChainDims ([] ++ s1 :: [s2]) ∧ ChainDims ([s1] ++ s2 :: []) ∧ totalE CRat.conj [s1, s2] ≠ 0 := by
+  intro s1 s2
+  refine ⟨⟨rfl, rfl, rfl, trivial⟩, ⟨rfl, rfl, rfl, trivial⟩, ?_⟩
+  decide +kernel
+
+/-- non-vacuity (`norm_is_local`, `site_update_conserves_norm`): a product-state norm chain `|0⟩|+⟩·√2` with identity MPO
+    is left- and right-canonical around its first site -/
+example :
+    let s2 : Site CRat := ⟨⟨2, 2, 1, 1, 1, 1, 1, 1⟩, fun p _ _ => if p = 0 then 1 else 0, idOp⟩
+    IdSite s2 ∧ RightCanon CRat.conj 1 [s2] ∧ LeftCanon CRat.conj 1 [s2] := by
+  intro s2
+  refine ⟨⟨rfl, rfl, rfl, rfl, rfl, rfl⟩, ⟨rfl, ⟨rfl, rfl, rfl, rfl, rfl, rfl⟩, ?_, trivial⟩,
+    ⟨rfl, ⟨rfl, rfl, rfl, rfl, rfl, rfl⟩, ?_, trivial⟩⟩
+  · intro a A' ha hA
+    have h1 : a = 0 := by change a < 1 at ha; omega
+    have h2 : A' = 0 := by change A' < 1 at hA; omega
+    subst h1 h2
+    decide +kernel
+  · intro b B hb hB
+    have h1 : b = 0 := by change b < 1 at hb; omega
+    have h2 : B = 0 := by change B < 1 at hB; omega
+    subst h1 h2
+    decide +kernel
+
+end Yaqs.Heff
+
+namespace Yaqs.Sweep
+
+/-- **C05.14 `full_steps_erase_to_trace`** the step lists of `Model/Conserve.lean` (primitives *and* the QR / contraction /
+    merge statements between them) erase to exactly the primitive lists of `Model/Sweep.lean` that the correspondence
+    check compares with the real call trace — for every chain length, analog and digital. -/
+theorem full_steps_erase_to_trace (L : Nat) (digital : Bool) :
+    prims (singleSiteFull L digital) = singleSite L digital ∧
+    (twoSiteFull L digital).map prims = twoSite L digital := by
+  constructor
+  · cases digital <;>
+      simp [singleSiteFull, singleSite, prims_append, prims_ssLRFull L, prims_ssRLFull, prims]
+  · unfold twoSiteFull twoSite
+    by_cases h : L < 2
+    · simp [h]
+    · cases digital <;> simp [h, prims_append, prims_tsLRFull, prims_tsRLFull, prims]
+
+/-- **C05.15 `fixed_sweeps_keep_centre`** every primitive of `single_site_tdvp` and `two_site_tdvp` acts on the tensor that
+    is the orthogonality centre at that moment, for every chain length: starting with the centre at site 0 (what
+    `MPS.normalize("B")` leaves), the QR of the updated site moves the centre onto the bond before `update_bond`, the
+    contraction moves it onto the next site before `update_site`, a split puts it on the side the singular values went to
+    (`"right"` going right, `"left"` going left), and the analog call returns it to site 0 (the digital single sweep leaves
+    it at site `L-1`).  `single_site_tdvp` contains no truncating step; `two_site_tdvp` contains `2L-3` splits. -/
+theorem fixed_sweeps_keep_centre (L : Nat) (_hL : 1 ≤ L) :
+    walkAll (.site 0) (singleSiteFull L false) = some (.site 0) ∧
+    walkAll (.site 0) (singleSiteFull L true) = some (.site (L - 1)) ∧
+    (∀ d, ∀ st ∈ singleSiteFull L d, st.lossless = true) ∧
+    (2 ≤ L → ∃ steps, twoSiteFull L false = some steps ∧ walkAll (.site 0) steps = some (.site 0) ∧
+      lossTotal L (prims steps) = 2 * L - 3) := by
+  have hss : ∀ h : Rat, walkAll (.site 0) (ssLRFull h (L - 1) 0 ++ [.prim (.site (L - 1) 1)]) = some (.site (L - 1)) := by
+    intro h
+    rw [walkAll_append, walk_ssLRFull]
+    simp [walkAll, walk]
+  refine ⟨?_, ?_, ?_, ?_⟩
+  · simp only [singleSiteFull, Bool.false_eq_true, if_false]
+    rw [walkAll_append, hss]
+    exact walk_ssRLFull _ _
+  · simp only [singleSiteFull, if_true]
+    exact hss 1
+  · intro d st hst
+    cases d
+    · simp only [singleSiteFull, Bool.false_eq_true, if_false, List.mem_append, List.mem_singleton] at hst
+      rcases hst with (hst | rfl) | hst
+      · exact lossless_ssLRFull _ _ _ st hst
+      · rfl
+      · exact lossless_ssRLFull _ _ st hst
+    · simp only [singleSiteFull, if_true, List.mem_append, List.mem_singleton] at hst
+      rcases hst with hst | rfl
+      · exact lossless_ssLRFull _ _ _ st hst
+      · rfl
+  · intro h2
+    have hlt : ¬ L < 2 := by omega
+    refine ⟨tsLRFull (1 / 2) (L - 2) 0 ++ [.merge (L - 2), .prim (.pair (L - 2) 1), .prim (.split (L - 2) false)] ++
+      tsRLFull (1 / 2) (L - 2), by simp only [twoSiteFull, hlt, if_false, Bool.false_eq_true], ?_, ?_⟩
+    · rw [walkAll_append, walkAll_append, walk_tsLRFull]
+      have e : 0 + (L - 2) = L - 2 := by omega
+      simp only [e, Option.bind_some, walkAll, walk, true_or, if_true, Bool.false_eq_true, if_false]
+      exact walk_tsRLFull _ _
+    · simp only [prims_append, prims_tsLRFull, prims_tsRLFull, prims, lossTotal_append, lossTotal_tsLR, lossTotal_tsRL,
+        lossTotal, lossCount]
+      omega
+
+/-- **C05.16 `one_site_sweep_conserves`** (clauses "keeps the state normalised" and "energy expectation constant", one-site
+    integrator, exact).  Abstract system: a state space with an energy `E`, a squared norm `N`, a canonical-centre
+    predicate and an action for every step.  Hypothesis `Sound`: each step other than a truncating split, *applied where
+    the centre is*, keeps `E` and `N` and leaves the centre where `walk` says.  It is discharged for the concrete objects by
+      · `prim (site i t)`  — `site_update_conserves_energy`, `site_update_conserves_norm` (C05.11–12, from `herm_flow_*`,
+        `energy_is_local_site`, `norm_is_local`, C19 `heff_hermitian_chain`),
+      · `prim (bond b t)`  — `bond_update_conserves` (C05.13),
+      · `qrRight / qrLeft / absorbRight / absorbLeft / merge` — gauge moves: the represented vector is unchanged
+        (C10 `c10_shift_right_QR`, `c10_shift_left_explicit`; the moved-over site is isometric afterwards, C10.10),
+    and remains a hypothesis only in that the Krylov exponential is taken to be exact (C19) and rounding is ignored.
+    Conclusion, for every chain length `L ≥ 1`, every number `m` of calls and every start state with the centre at site 0:
+    after `m` calls of `single_site_tdvp` energy and norm are *equal* to their initial values, and the centre is back at
+    site 0.  (The threshold never enters: the one-site integrator has no truncating step.) -/
+theorem one_site_sweep_conserves {σ R : Type*} [Field R] [LinearOrder R] [IsStrictOrderedRing R]
+    (S : TdvpSys σ R) (thr eps : R) (hS : S.Sound thr eps) (L : Nat) (hL : 1 ≤ L) (m : Nat) (x : σ)
+    (hx : S.ctr x (.site 0)) :
+    S.E ((S.run (singleSiteFull L false))^[m] x) = S.E x ∧ S.N ((S.run (singleSiteFull L false))^[m] x) = S.N x ∧
+    S.ctr ((S.run (singleSiteFull L false))^[m] x) (.site 0) := by
+  obtain ⟨hw, _, hl, _⟩ := fixed_sweeps_keep_centre L hL
+  induction m generalizing x with
+  | zero => exact ⟨rfl, rfl, hx⟩
+  | succ m ih =>
+    obtain ⟨e1, n1, k1⟩ := run_exact S thr eps hS _ (hl false) _ _ hw x hx
+    obtain ⟨e2, n2, k2⟩ := ih (S.run (singleSiteFull L false) x) k1
+    simp only [Function.iterate_succ, Function.comp_apply]
+    exact ⟨e2.trans e1, n2.trans n1, k2⟩
+
+/-- **C05.17 `two_site_sweep_drift`** the honest version for the two-site integrator: the pair update conserves exactly
+    (it is a site update of the merged tensor: same hypotheses as above), a truncating split lowers the squared norm by
+    exactly the discarded weight (`c09_split_error`) which the rank rule keeps `≤ thr` (C09.1), and moves the energy by at
+    most `eps` (for a bounded `H`: `eps ≤ ‖H‖(2√thr + thr)`).  So one analog call of `two_site_tdvp` on `L ≥ 2` sites, which
+    contains exactly `2L-3` splits, satisfies `N - (2L-3)·thr ≤ N' ≤ N` and `|E' - E| ≤ (2L-3)·eps`, and returns the
+    centre to site 0. -/
+theorem two_site_sweep_drift {σ R : Type*} [Field R] [LinearOrder R] [IsStrictOrderedRing R]
+    (S : TdvpSys σ R) (thr eps : R) (hS : S.Sound thr eps) (L : Nat) (hL : 2 ≤ L) (x : σ)
+    (hx : S.ctr x (.site 0)) :
+    ∃ steps, twoSiteFull L false = some steps ∧ S.ctr (S.run steps x) (.site 0) ∧
+      S.N x - ((2 * L - 3 : Nat) : R) * thr ≤ S.N (S.run steps x) ∧ S.N (S.run steps x) ≤ S.N x ∧
+      |S.E (S.run steps x) - S.E x| ≤ ((2 * L - 3 : Nat) : R) * eps := by
+  obtain ⟨_, _, _, h2⟩ := fixed_sweeps_keep_centre L (by omega)
+  obtain ⟨steps, hs, hw, hloss⟩ := h2 hL
+  have := run_drift S thr eps hS L steps _ _ hw x hx
+  rw [hloss] at this
+  exact ⟨steps, hs, this⟩
+
+/-- **C05.18 `sweep_drift_abstract`** the same induction for *any* step list whose centre walk succeeds — in particular for
+    the mixed one-site / two-site lists of `local_dynamic_tdvp` with their gauge steps written out: the drift per call is
+    bounded by (number of truncating splits among its primitives) × `thr` resp. `eps`, and a step list without splits
+    conserves exactly.  With `ldtdvp_loss` (at most `2L` splits per call) this is the per-call budget of `norm_budget`. -/
+theorem sweep_drift_abstract {σ R : Type*} [Field R] [LinearOrder R] [IsStrictOrderedRing R]
+    (S : TdvpSys σ R) (thr eps : R) (hS : S.Sound thr eps) (L : Nat) (steps : List Step) (c c' : Centre)
+    (hw : walkAll c steps = some c') (x : σ) (hx : S.ctr x c) :
+    S.ctr (S.run steps x) c' ∧
+    S.N x - (lossTotal L (prims steps) : R) * thr ≤ S.N (S.run steps x) ∧ S.N (S.run steps x) ≤ S.N x ∧
+    |S.E (S.run steps x) - S.E x| ≤ (lossTotal L (prims steps) : R) * eps ∧
+    ((∀ st ∈ steps, st.lossless = true) → S.E (S.run steps x) = S.E x ∧ S.N (S.run steps x) = S.N x) := by
+  obtain ⟨a, b, c1, d⟩ := run_drift S thr eps hS L steps c c' hw x hx
+  refine ⟨a, b, c1, d, fun hl => ?_⟩
+  obtain ⟨e, n, _⟩ := run_exact S thr eps hS steps hl c c' hw x hx
+  exact ⟨e, n⟩
+
+/-- **C05.19 `norm_budget_discharged`** the hypothesis `NormTrace` of `norm_budget` (C05.4) is now a theorem for the
+    fixed-branch integrators: for a rational-valued squared norm, `m` calls of `two_site_tdvp` (each returns the centre to
+    site 0, so the calls compose) starting at norm 1 produce a norm trace over exactly the primitive lists the
+    correspondence check ties, hence `1 - m·2L·thr ≤ ‖ψ‖² ≤ 1`. -/
+theorem norm_budget_discharged {σ : Type*} (S : TdvpSys σ Rat) (thr eps : Rat) (hthr : 0 ≤ thr)
+    (hS : S.Sound thr eps) (L : Nat) (hL : 2 ≤ L) (steps : List Step) (hsteps : twoSiteFull L false = some steps)
+    (m : Nat) (x : σ) (hx : S.ctr x (.site 0)) (hN : S.N x = 1) :
+    1 - (m : Rat) * (2 * L) * thr ≤ S.N ((S.run steps)^[m] x) ∧ S.N ((S.run steps)^[m] x) ≤ 1 := by
+  obtain ⟨_, _, _, h2⟩ := fixed_sweeps_keep_centre L (by omega)
+  obtain ⟨steps', hs', hw, hloss⟩ := h2 hL
+  have hEq : steps' = steps := by rw [hs'] at hsteps; exact Option.some.inj hsteps
+  subst hEq
+  -- the m calls, flattened, form one norm trace
+  have key : ∀ (m : Nat) (y : σ), S.ctr y (.site 0) →
+      NormTrace L thr ((List.replicate m (prims steps')).flatten) (S.N y) (S.N ((S.run steps')^[m] y)) ∧
+      S.ctr ((S.run steps')^[m] y) (.site 0) := by
+    intro m
+    induction m with
+    | zero => intro y hy; exact ⟨NormTrace.nil _, hy⟩
+    | succ m ih =>
+      intro y hy
+      have t1 := normTrace_of_run S thr eps hS L steps' _ _ hw y hy
+      have k1 := (run_drift S thr eps hS L steps' _ _ hw y hy).1
+      obtain ⟨t2, k2⟩ := ih (S.run steps' y) k1
+      simp only [List.replicate_succ, List.flatten_cons, Function.iterate_succ, Function.comp_apply]
+      exact ⟨normTrace_join L thr _ _ _ _ _ t1 t2, k2⟩
+  obtain ⟨t, _⟩ := key m x hx
+  rw [hN] at t
+  have hcalls : ∀ c ∈ List.replicate m (prims steps'), lossTotal L c ≤ 2 * L := by
+    intro c hc
+    rw [List.eq_of_mem_replicate hc, hloss]
+    omega
+  have := norm_budget L thr hthr (List.replicate m (prims steps')) hcalls _ t
+  simpa using this
+
+/-- **C05.20 `ldtdvp_steps`** the default integrator `local_dynamic_tdvp` with its gauge steps written out
+    (`ldtdvpFull`: same branch structure as the loops of `Model/Sweep.lean`, plus the QR / contraction / merge statements):
+    for every chain length and *every* decision sequence (no realizability needed) its erasure is the tied primitive list
+    `ldtdvpD`, every primitive acts on the tensor that is the orthogonality centre at that moment, and the analog call
+    returns the centre to site 0 — so consecutive calls compose (the digital single sweep leaves it at site `L-1`). -/
+theorem ldtdvp_steps (L : Nat) (hL : 1 ≤ L) (dLR dRL : Nat → Bool) :
+    (∀ dg, prims (ldtdvpFull L dLR dRL dg) = ldtdvpD L dLR dRL dg) ∧
+    walkAll (.site 0) (ldtdvpFull L dLR dRL false) = some (.site 0) ∧
+    walkAll (.site 0) (ldtdvpFull L dLR dRL true) = some (.site (L - 1)) := by
+  refine ⟨?_, ?_, ?_⟩
+  · intro dg
+    unfold ldtdvpFull ldtdvpD
+    by_cases h1 : L = 1
+    · simp only [h1, if_true]
+      exact (full_steps_erase_to_trace 1 dg).1
+    · simp only [h1, if_false]
+      cases dg
+      · simp only [Bool.false_eq_true, if_false, prims_append, prims_lrLoopFull, prims_rlLoopFull]
+        rfl
+      · simp only [if_true, prims_lrLoopFull]
+        rfl
+  · unfold ldtdvpFull
+    by_cases h1 : L = 1
+    · simp only [h1, if_true]
+      exact (fixed_sweeps_keep_centre 1 (by omega)).1
+    · simp only [h1, if_false, Bool.false_eq_true]
+      rw [walkAll_append, walk_lrLoopFull L dLR (1 / 2) L 0 false (by omega) hL]
+      exact walk_rlLoopFull dRL (1 / 2) L false hL
+  · unfold ldtdvpFull
+    by_cases h1 : L = 1
+    · simp only [h1, if_true]
+      exact (fixed_sweeps_keep_centre 1 (by omega)).2.1
+    · simp only [h1, if_false, if_true]
+      exact walk_lrLoopFull L dLR 1 L 0 false (by omega) hL
+
+/-- **C05.21 `ldtdvp_drift`** (clauses "keeps the state normalised and its energy expectation constant to within the
+    truncation threshold, at every reported time", default integrator).  Abstract system as in C05.16; `m` consecutive
+    calls of `local_dynamic_tdvp`, each with its own realizable decisions.  Since every call returns the centre to site 0
+    and performs at most `2L` truncating splits (`ldtdvp_loss`), after the `m` calls
+    `N₀ - m·2L·thr ≤ N ≤ N₀` and `|E - E₀| ≤ m·2L·eps` — with *equality* `N = N₀`, `E = E₀` contributed by every
+    site / bond / pair update.  Hypotheses left: `Sound` (discharged per step as listed at C05.16; Krylov exactness C19,
+    no rounding). -/
+theorem ldtdvp_drift {σ R : Type*} [Field R] [LinearOrder R] [IsStrictOrderedRing R]
+    (S : TdvpSys σ R) (thr eps : R) (hthr : 0 ≤ thr) (heps : 0 ≤ eps) (hS : S.Sound thr eps) (L : Nat) (hL : 1 ≤ L)
+    (m : Nat) (dLR dRL : Nat → Nat → Bool) (hLR : ∀ k, Realizable L (dLR k) (L - 1)) (hRL : ∀ k, Realizable L (dRL k) 0)
+    (x : σ) (hx : S.ctr x (.site 0)) :
+    S.ctr (S.run ((List.range m).map fun k => ldtdvpFull L (dLR k) (dRL k) false).flatten x) (.site 0) ∧
+    S.N x - (m : R) * (2 * L) * thr ≤
+      S.N (S.run ((List.range m).map fun k => ldtdvpFull L (dLR k) (dRL k) false).flatten x) ∧
+    S.N (S.run ((List.range m).map fun k => ldtdvpFull L (dLR k) (dRL k) false).flatten x) ≤ S.N x ∧
+    |S.E (S.run ((List.range m).map fun k => ldtdvpFull L (dLR k) (dRL k) false).flatten x) - S.E x| ≤
+      (m : R) * (2 * L) * eps := by
+  have hw : walkAll (.site 0) ((List.range m).map fun k => ldtdvpFull L (dLR k) (dRL k) false).flatten =
+      some (.site 0) := by
+    apply walkAll_flatten
+    intro c hc
+    obtain ⟨k, _, rfl⟩ := List.mem_map.mp hc
+    exact (ldtdvp_steps L hL (dLR k) (dRL k)).2.1
+  have hloss : lossTotal L (prims ((List.range m).map fun k => ldtdvpFull L (dLR k) (dRL k) false).flatten) ≤
+      m * (2 * L) := by
+    rw [prims_flatten]
+    have := lossTotal_flatten_le L (2 * L)
+      (((List.range m).map fun k => ldtdvpFull L (dLR k) (dRL k) false).map prims) (by
+        intro c hc
+        obtain ⟨c', hc', rfl⟩ := List.mem_map.mp hc
+        obtain ⟨k, _, rfl⟩ := List.mem_map.mp hc'
+        rw [(ldtdvp_steps L hL (dLR k) (dRL k)).1 false]
+        exact ldtdvp_loss L hL _ _ false (hLR k) (hRL k))
+    simpa using this
+  obtain ⟨a, b, c, d⟩ := run_drift S thr eps hS L _ _ _ hw x hx
+  have hcast : (lossTotal L (prims ((List.range m).map fun k => ldtdvpFull L (dLR k) (dRL k) false).flatten) : R) ≤
+      (m : R) * (2 * L) := by
+    have : ((lossTotal L (prims ((List.range m).map fun k => ldtdvpFull L (dLR k) (dRL k) false).flatten) : Nat) : R) ≤
+        ((m * (2 * L) : Nat) : R) := by exact_mod_cast hloss
+    simpa using this
+  refine ⟨a, ?_, c, ?_⟩
+  · have := mul_le_mul_of_nonneg_right hcast hthr
+    linarith
+  · have := mul_le_mul_of_nonneg_right hcast heps
+    linarith
+
+/-- **C05.22 `c05_norm_discharged`** `c05_partial` without its norm-trace hypothesis: for a system with a rational-valued
+    squared norm whose steps are sound, a start state of norm 1 with the centre at site 0, and the bond dimensions seen by
+    `m` consecutive calls of `local_dynamic_tdvp` (all `≥ 1`, dummy legs `= 1`), the primitive lists of the calls — the very
+    lists the correspondence check ties to the real call trace — carry a norm trace from 1 to the final squared norm, hence
+    `1 - m·2L·thr ≤ ‖ψ_m‖² ≤ 1`. -/
+theorem c05_norm_discharged {σ : Type*} (S : TdvpSys σ Rat) (thr eps : Rat) (hthr : 0 ≤ thr) (hS : S.Sound thr eps)
+    (L maxBond : Nat) (hL : 2 ≤ L) (seenLR seenRL : Nat → Nat → Nat)
+    (hLR : ∀ k i, i < L → 1 ≤ seenLR k i) (hRL : ∀ k i, i < L → 1 ≤ seenRL k i)
+    (hdLR : ∀ k, seenLR k (L - 1) = 1) (hdRL : ∀ k, seenRL k 0 = 1) (m : Nat) (x : σ)
+    (hx : S.ctr x (.site 0)) (hN : S.N x = 1) :
+    NormTrace L thr ((List.range m).map (fun k => ldtdvp L maxBond (seenLR k) (seenRL k) false)).flatten 1
+      (S.N (S.run ((List.range m).map fun k => ldtdvpFull L (fun i => capped (seenLR k i) maxBond)
+        (fun i => capped (seenRL k i) maxBond) false).flatten x)) ∧
+    1 - (m : Rat) * (2 * L) * thr ≤
+      S.N (S.run ((List.range m).map fun k => ldtdvpFull L (fun i => capped (seenLR k i) maxBond)
+        (fun i => capped (seenRL k i) maxBond) false).flatten x) ∧
+    S.N (S.run ((List.range m).map fun k => ldtdvpFull L (fun i => capped (seenLR k i) maxBond)
+        (fun i => capped (seenRL k i) maxBond) false).flatten x) ≤ 1 := by
+  have hw : walkAll (.site 0) ((List.range m).map fun k => ldtdvpFull L (fun i => capped (seenLR k i) maxBond)
+      (fun i => capped (seenRL k i) maxBond) false).flatten = some (.site 0) := by
+    apply walkAll_flatten
+    intro c hc
+    obtain ⟨k, _, rfl⟩ := List.mem_map.mp hc
+    exact (ldtdvp_steps L (by omega) _ _).2.1
+  have t := normTrace_of_run S thr eps hS L _ _ _ hw x hx
+  have hp : prims ((List.range m).map fun k => ldtdvpFull L (fun i => capped (seenLR k i) maxBond)
+      (fun i => capped (seenRL k i) maxBond) false).flatten =
+      ((List.range m).map (fun k => ldtdvp L maxBond (seenLR k) (seenRL k) false)).flatten := by
+    rw [prims_flatten, List.map_map]
+    congr 1
+    apply List.map_congr_left
+    intro k _
+    exact (ldtdvp_steps L (by omega) _ _).1 false
+  rw [hp, hN] at t
+  exact ⟨t, (c05_partial L maxBond hL thr hthr seenLR seenRL hLR hRL hdLR hdRL m _ t).2⟩
+
+/-- non-vacuity: the full step list of `single_site_tdvp` on two sites, the centre walk on three sites (it fails from a wrong
+    start centre), and the full step list of `local_dynamic_tdvp` on three sites with mixed decisions -/
+example : singleSiteFull 2 false =
+    [.prim (.site 0 (1/2)), .qrRight 0, .prim (.bond 0 (-1/2)), .absorbRight 0, .prim (.site 1 1),
+     .qrLeft 1, .prim (.bond 0 (-1/2)), .absorbLeft 0, .prim (.site 0 (1/2))] ∧
+    walkAll (.site 0) (singleSiteFull 3 false) = some (.site 0) ∧
+    walkAll (.site 1) (singleSiteFull 3 false) = none ∧
+    ldtdvpFull 3 (fun i => decide (i = 1)) (fun _ => false) false =
+      [.merge 0, .prim (.pair 0 (1/2)), .prim (.split 0 true), .prim (.site 1 (-1/2)),
+       .prim (.site 1 (1/2)), .qrRight 1, .prim (.bond 1 (-1/2)), .absorbRight 1, .prim (.site 2 (1/2)),
+       .merge 1, .prim (.pair 1 (1/2)), .prim (.split 1 false), .prim (.site 1 (-1/2)),
+       .merge 0, .prim (.pair 0 (1/2)), .prim (.split 0 false)] := by decide +kernel
+
+/-- non-vacuity of `Sound`: the trivial system (one state, everything constant) satisfies it, so the hypotheses of
+    C05.16–19 are consistent; a system in which a split loses exactly `thr` is the content of the `NormTrace` example above -/
+example : (⟨fun _ => 0, fun _ => 1, fun _ _ => True, fun _ x => x⟩ : TdvpSys Unit Rat).Sound 0 0 :=
+  ⟨fun _ _ _ _ _ _ _ => ⟨rfl, rfl, trivial⟩, fun _ _ _ _ _ _ _ => ⟨trivial, by simp, le_refl _, by simp⟩⟩
 
 end Yaqs.Sweep
